@@ -31,7 +31,7 @@ print(len([t for t in base if res.get(t)!='pass']))
 P
 )
   [ "$notpassing" = 0 ] && suite=ok || suite="fail($notpassing)"
-  cp $src/demo_test.go $wt/$place/zz_demo_seeded_test.go
+  mkdir -p $wt/$place; cp $src/demo_test.go $wt/$place/zz_demo_seeded_test.go
   if (cd $wt/$place && go test -vet=off -count=1 -run "$pat" . >/tmp/wt/v_$name.demo_with 2>&1); then demo_with=pass; else demo_with=fail; fi
   git apply -R /tmp/wt/v_$name.rebased.diff
   if (cd $wt/$place && go test -vet=off -count=1 -run "$pat" . >/tmp/wt/v_$name.demo_without 2>&1); then demo_without=pass; else demo_without=fail; fi
